@@ -676,24 +676,43 @@ class StmtMixin:
         if k is not None:
             return self.unrolled_for(s, st, k, ctx)
         self.check_invariants(s, st, "entry")
-        head = st.fork()
-        self.havoc_for_loop(s, head, [s.get("Body"), s.get("Post"), s.get("Cond")])
-        self.assume_invariants(s, head)
-        c = self.ev(s["Cond"], head) if s.get("Cond") else TRUE
-        v0, vcl = self.variant_value(s, head)
-        body = head.fork(zand(head.pc, c))
-        fr.loops.append(ctx)
-        self.iter_stack.append(None)
-        self.in_loop += 1
-        out = self.ex(s["Body"], body)
-        self.in_loop -= 1
-        out = self.merge_all([o for o in [out] + ctx.continues if o is not None])
-        if out is not None and s.get("Post"):
-            out = self.ex(s["Post"], out)
-        self.iter_stack.pop()
-        fr.loops.pop()
+        havoc_ev = set()
+        while True:
+            # Operation counters the body changes on a path that iterates again are havoc'd at the loop head (the
+            # loop may have performed them any number of times before the arbitrary iteration).  Which ones is only
+            # known after executing the body, so the loop is re-executed with a larger havoc set until it is stable.
+            snap = self.exec_snapshot(fr)
+            ctx.breaks, ctx.continues = [], []
+            head = st.fork()
+            self.havoc_for_loop(s, head, [s.get("Body"), s.get("Post"), s.get("Cond")])
+            self.havoc_counters(head, havoc_ev)
+            self.assume_invariants(s, head)
+            iter_pre = head.fork()
+            c = self.ev(s["Cond"], head) if s.get("Cond") else TRUE
+            v0, vcl = self.variant_value(s, head)
+            body = head.fork(zand(head.pc, c))
+            fr.loops.append(ctx)
+            self.iter_stack.append(None)
+            self.in_loop += 1
+            try:
+                out = self.ex(s["Body"], body)
+            finally:
+                self.in_loop -= 1
+            out = self.merge_all([o for o in [out] + ctx.continues if o is not None])
+            if out is not None and s.get("Post"):
+                out = self.ex(s["Post"], out)
+            self.iter_stack.pop()
+            fr.loops.pop()
+            more = self.loop_counter_changes(s, head, out) - havoc_ev if out is not None else set()
+            if not more:
+                break
+            havoc_ev |= more
+            self.exec_restore(fr, snap)
         if out is not None:
-            self.check_loop_counters(s, head, out)
+            for cl in self.loop_clauses(s, "preserves"):
+                # per-iteration contract: old(x) is x at the start of the (arbitrary) iteration, zzCalls counts within it
+                g = self.eval_clause(cl, out, old=iter_pre)
+                self.oblige(out, "preserves", "loop%d-%s" % (s.get("loop", 0), cl["label"]), g, cl.get("ln"), cl["text"])
             self.check_invariants(s, out, "preserved")
             if v0 is not None:
                 v1, _ = self.variant_value(s, out)
@@ -802,6 +821,9 @@ class StmtMixin:
         out = self.merge_all([o for o in [out] + ctx.continues if o is not None])
         fr.loops.pop()
         if out is not None:
+            ch = self.loop_counter_changes(s, head, out)
+            if ch:
+                raise Unsupported("range loop %d performs the counted operation(s) %s on a path that iterates again" % (s.get("loop", 0), ", ".join(sorted(ch))))
             out.vars[itkey] = i + step
             if s.get("Key") and s["Key"].get("Name") != "_":
                 self.assign_to(s["Key"], self.int_of(i + step, self.T(s["Key"])), out, "=")
@@ -812,6 +834,67 @@ class StmtMixin:
             pass
         res = self.merge_all([o for o in [exit_st] + ctx.breaks if o is not None])
         return res
+
+    def exec_snapshot(self, fr):
+        return {"obs": len(self.obligations), "facts": len(self.facts), "rets": len(fr.rets), "defers": len(getattr(fr, "defers", [])),
+                "vac": len(getattr(self, "vacuous_calls", [])), "notes": len(self.notes)}
+
+    def exec_restore(self, fr, snap):
+        del self.obligations[snap["obs"]:]
+        self.facts.cut(snap["facts"])
+        for k_ in [k_ for k_ in self.fact_pcs if k_ >= snap["facts"]]:
+            del self.fact_pcs[k_]
+        self.fp_defs = set(i_ for i_ in self.fp_defs if i_ < snap["facts"])
+        del fr.rets[snap["rets"]:]
+        if hasattr(fr, "defers"):
+            del fr.defers[snap["defers"]:]
+        if hasattr(self, "vacuous_calls"):
+            del self.vacuous_calls[snap["vac"]:]
+        del self.notes[snap["notes"]:]
+
+    def havoc_counters(self, head, names):
+        if not names:
+            return
+        clk = head.ghost.get("clock")
+        if clk is None:
+            clk = z3.BitVecVal(0, 64)
+        adv = self.fresh("clock@loop", z3.BitVecSort(64))
+        self.facts.append(z3.ULE(adv, z3.BitVecVal(1 << 40, 64)))
+        nclk = clk + adv
+        for nm in sorted(names):
+            key = "ev:" + nm
+            cur = head.ghost.get(key)
+            if cur is None:
+                cur = z3.BitVecVal(0, 64)
+            d = self.fresh("calls@loop:" + nm, z3.BitVecSort(64))
+            self.facts.append(z3.ULE(d, z3.BitVecVal(1 << 40, 64)))
+            head.ghost[key] = cur + d
+            sq = self.fresh("seq@loop:" + nm, z3.BitVecSort(64))
+            self.facts.append(z3.ULE(sq, nclk))
+            osq = head.ghost.get("seq:" + nm)
+            if osq is None:
+                osq = z3.BitVecVal(0, 64)
+            head.ghost["seq:" + nm] = z3.If(d == z3.BitVecVal(0, 64), osq, sq)
+            for k_ in [k_ for k_ in head.ghost if isinstance(k_, str) and (k_.startswith("arg:%s:" % nm) or k_.startswith("ret:%s:" % nm) or k_.startswith("recv:%s:" % nm))]:
+                del head.ghost[k_]   # last-call values of earlier iterations are unknown
+        head.ghost["clock"] = nclk
+
+    def loop_counter_changes(self, s, head, out):
+        """Tracked operations whose counter differs between the loop head and the end of an iterating path."""
+        tracked = set(self.tracked_events()) if hasattr(self, "tracked_events") else set()
+        c = getattr(self.cur_func, "contract", None)
+        if c is not None:
+            import re as _re
+            for cl in c.clauses:
+                tracked |= set(_re.findall(r'zz(?:Calls|Seq|Arg|Ret|Recv)(?:\[[^\]]*\])?\("([^"]+)"', cl.get("text") or ""))
+        changed = set()
+        for k, v in out.ghost.items():
+            if isinstance(k, str) and k.startswith("ev:") and k[3:] in tracked and not k.startswith("ev:select.arm:"):
+                h = head.ghost.get(k)
+                same = (h is None and z3.is_bv_value(z3.simplify(v)) and z3.simplify(v).as_long() == 0) or (h is not None and z3.is_expr(v) and z3.simplify(v - h).eq(z3.BitVecVal(0, 64)))
+                if not same:
+                    changed.add(k[3:])
+        return changed
 
     def check_loop_counters(self, s, head, out):
         """Operation counters are not havoc'd at loop heads: a loop may only perform tracked operations on paths that leave it."""
